@@ -16,7 +16,7 @@ ASSUMPTIONS = [
 ]
 BOUNDS = {
     "quick": "3 handlers (one asking for event details, each with a free 'raises' flag) subscribed with free subscription ids, then <= 4 steps over {unsubscribe handler i, UNSUBSCRIBED, ERROR for the unsubscribe, EVENT with free subscription id and one of 4 payload shapes}",
-    "thorough": "4 handlers, <= 6 steps",
+    "thorough": "3 handlers x <= 5 steps, 2 handlers x <= 6 steps, 4 handlers x <= 4 steps (4 handlers x 5 steps was measured: over the 40 min budget)",
 }
 EXPECT_COVERS = ["event:delivered", "event:shared-id", "event:racing-unsubscribe-dropped", "event:unknown-id-ProtocolError", "handler:raised", "unsubscribe:last", "unsubscribe:not-last"]
 BUDGET = {"quick": dict(wall_s=300, max_paths=40000, diff_samples=4), "thorough": dict(wall_s=2400, max_paths=500000)}
@@ -149,7 +149,7 @@ def units(tier):
     U = []
     q = tier == "quick"
     menu = ["event", "unsubscribe", "unsubscribed", "unsub-error"]
-    for nh, steps in ((3, 4 if q else 5), (2, 4 if q else 6)) + (() if q else ((4, 5),)):
+    for nh, steps in ((3, 4 if q else 5), (2, 4 if q else 6)) + (() if q else ((4, 4),)):
         for first in ("event", "unsubscribe"):
             for second in menu:
                 if first == "event" and second in ("unsubscribed", "unsub-error"):
